@@ -25,7 +25,10 @@
 //!
 //! Not judged: slot indices, generation numbers, stale-file cleanup counts.
 
-use cascette_client_storage::lru::LruManager;
+use cascette_client_storage::container::{AccessMode, Container, DynamicContainer};
+use cascette_client_storage::lru::{LruManager, lru_file};
+use parking_lot::RwLock;
+use std::sync::Arc;
 use serde_json::{Value, json};
 use std::collections::{HashMap, HashSet, VecDeque};
 use std::path::{Path, PathBuf};
@@ -54,6 +57,20 @@ enum Op {
     Shutdown,
     /// drop the manager and create a fresh one (same capacity, same directory)
     Reopen,
+    /// drop the manager and create a fresh one with ANOTHER capacity on the same directory
+    ReopenCap(usize),
+    /// load_from_disk of a generation that has no file
+    LoadMissing,
+    /// load_from_disk of a damaged copy of an existing checkpoint (kind of damage)
+    LoadCorrupt(u8),
+    /// run_cycle while the highest generation in the directory is a damaged file
+    CycleCorrupt(u8),
+    /// copy an existing checkpoint to generation u64::MAX and load it (the next bump wraps)
+    LoadMaxGen(u32),
+    /// drop files that are not checkpoints into the directory (bit 0: plain decoys, bit 1: a non-UTF-8 name)
+    Decoys(u8),
+    /// the data directory is gone while checkpoint (0) / run_cycle (1) / shutdown (2) / load (3) runs
+    DirAway(u8),
 }
 
 impl Op {
@@ -69,7 +86,16 @@ impl Op {
             Op::Load(_) => "load_from_disk",
             Op::RunCycle { .. } => "run_cycle",
             Op::Shutdown => "shutdown",
-            Op::Reopen => "reopen",
+            Op::Reopen | Op::ReopenCap(_) => "reopen",
+            Op::LoadMissing | Op::LoadCorrupt(_) | Op::LoadMaxGen(_) => "load_from_disk",
+            Op::CycleCorrupt(_) => "run_cycle",
+            Op::Decoys(_) => "decoys",
+            Op::DirAway(k) => match k % 4 {
+                0 => "checkpoint_to_disk",
+                1 => "run_cycle",
+                2 => "shutdown",
+                _ => "load_from_disk",
+            },
         }
     }
     fn encode(&self) -> String {
@@ -85,6 +111,13 @@ impl Op {
             Op::RunCycle { limit, avg } => format!("Y{limit}/{avg}"),
             Op::Shutdown => "S".into(),
             Op::Reopen => "O".into(),
+            Op::ReopenCap(c) => format!("O{c}"),
+            Op::LoadMissing => "M".into(),
+            Op::LoadCorrupt(k) => format!("K{k}"),
+            Op::CycleCorrupt(k) => format!("J{k}"),
+            Op::LoadMaxGen(s) => format!("G{s}"),
+            Op::Decoys(k) => format!("D{k}"),
+            Op::DirAway(k) => format!("A{k}"),
         }
     }
     fn decode(s: &str) -> Option<Op> {
@@ -110,7 +143,14 @@ impl Op {
                 Op::RunCycle { limit, avg }
             }
             "S" => Op::Shutdown,
-            "O" => Op::Reopen,
+            "O" if rest.is_empty() => Op::Reopen,
+            "O" => Op::ReopenCap(rest.parse().ok()?),
+            "M" => Op::LoadMissing,
+            "K" => Op::LoadCorrupt(rest.parse().ok()?),
+            "J" => Op::CycleCorrupt(rest.parse().ok()?),
+            "G" => Op::LoadMaxGen(rest.parse().ok()?),
+            "D" => Op::Decoys(rest.parse().ok()?),
+            "A" => Op::DirAway(rest.parse().ok()?),
             _ => return None,
         })
     }
@@ -163,15 +203,17 @@ impl Model {
     fn evict_tail(&mut self) -> bool {
         self.q.pop_front().is_some()
     }
-    fn evict_to_target(&mut self, target: u64, avg: u64) -> (usize, u64) {
+    /// Exact arithmetic: "evict from the tail until at least `target` bytes are
+    /// freed, each entry counting `avg` bytes".
+    fn evict_to_target(&mut self, target: u64, avg: u64) -> (usize, u128) {
         let mut n = 0usize;
-        let mut freed = 0u64;
-        while freed < target {
+        let mut freed = 0u128;
+        while freed < u128::from(target) {
             if self.q.pop_front().is_none() {
                 break;
             }
             n += 1;
-            freed += avg;
+            freed += u128::from(avg);
         }
         (n, freed)
     }
@@ -257,6 +299,9 @@ fn check_state(lru: &LruManager, model: &Model, pool: &[Key], opname: &str) -> R
     }
     if lru.len() > model.cap {
         return Err(viol(opname, "more-entries-than-capacity", "manager holds more entries than its capacity", json!({"len": lru.len(), "capacity": model.cap})));
+    }
+    if lru.capacity() as usize != model.cap {
+        return Err(viol(opname, "capacity-accessor-differs-from-configured-capacity", "capacity() no longer reports the capacity the manager was created with", json!({"capacity()": lru.capacity(), "configured": model.cap})));
     }
     if lru.is_empty() != want.is_empty() {
         return Err(viol(opname, "is_empty-differs-from-reference-lru", "is_empty() differs from the model", json!({"model": hexkeys(&want)})));
@@ -363,12 +408,27 @@ fn apply_mem(lru: &mut LruManager, model: &mut Model, op: &Op, pool: &[Key], cnt
             } else {
                 cnt.add("boundary.evict_to_target_partial", 1);
             }
-            if got != want {
-                return Err(viol("evict_to_target", "return-value-differs-from-reference-lru", "evict_to_target() (evicted, freed) differs from the model", json!({"target": target, "avg": avg, "got": [got.0 as u64, got.1], "want": [want.0 as u64, want.1]})));
+            if *avg == 0 && *target > 0 {
+                cnt.add("boundary.evict_to_target_avg_zero", 1);
+            }
+            // the byte total is judged only where it is representable: a u64
+            // cannot hold it when avg * evicted exceeds u64::MAX (observed, not judged)
+            let freed_fits = want.1 <= u128::from(u64::MAX);
+            if !freed_fits {
+                cnt.add("boundary.evict_to_target_freed_total_exceeds_u64", 1);
+            } else if *avg >= 1 << 62 && want.0 > 0 {
+                cnt.add("boundary.evict_to_target_huge_avg", 1);
+            }
+            if got.0 != want.0 || (freed_fits && u128::from(got.1) != want.1) {
+                let rel = if freed_fits { "return-value-differs-from-reference-lru" } else { "evicted-count-differs-from-reference-lru|byte-total-exceeds-u64" };
+                return Err(viol("evict_to_target", rel, "evict_to_target() (evicted, freed) differs from the model", json!({"target": target, "avg": avg, "got": [got.0 as u64, got.1], "want": [want.0.to_string(), want.1.to_string()]})));
             }
         }
         Op::Bump => {
             let g0 = lru.generation();
+            if g0 == u64::MAX {
+                cnt.add("boundary.bump_generation_wraps_at_u64_max", 1);
+            }
             lru.bump_generation();
             // generation numbers are not judged beyond "never 0" (documented)
             if lru.generation() == 0 {
@@ -650,6 +710,73 @@ enum Stop {
     Fatal(Viol),
     /// harness-side problem (I/O error): not a verdict
     Harness(String),
+    /// the history cannot be continued in lock-step for a reason that is not
+    /// this property's business (e.g. a damaged file was accepted: C07); not a verdict
+    Skip(&'static str),
+}
+
+/// Number of slots of a checkpoint file (28-byte header, 20 bytes per slot).
+fn file_slots(dir: &Path, g: u64) -> Option<usize> {
+    let len = std::fs::metadata(lru_file::lru_file_path(dir, g)).ok()?.len() as usize;
+    (len >= lru_file::LRU_HEADER_SIZE).then(|| (len - lru_file::LRU_HEADER_SIZE) / lru_file::LRU_ENTRY_SIZE)
+}
+
+/// Damage a valid checkpoint image. Kinds 0..=6 leave the stored MD5 stale or
+/// the size invalid; kinds 7..=10 re-serialize (fresh MD5) with broken links.
+fn damage(valid: &[u8], kind: u8) -> Option<Vec<u8>> {
+    let mut d = valid.to_vec();
+    match kind {
+        0 => {
+            let at = (d.len() * 2 / 3).max(20);
+            *d.get_mut(at)? ^= 0x10;
+        }
+        1 => {
+            d.pop();
+        }
+        2 => d.truncate(27),
+        3 => d[0] = 2, // version 2 > LRU_MAX_VERSION
+        4 => d[7] ^= 0x01, // inside the MD5 field
+        5 => d.clear(),
+        6 => d.extend_from_slice(&[0u8; 20]),
+        _ => {
+            let (mut header, mut entries) = lru_file::deserialize(valid)?;
+            let n = entries.len() as u32;
+            let tail = header.lru_tail;
+            if n == 0 || tail == lru_file::LRU_SENTINEL {
+                // empty list: only the header links can be broken
+                header.mru_head = n + 3;
+            } else {
+                match kind {
+                    7 => header.mru_head = n + 3,
+                    8 => entries[tail as usize].next = n + 1,
+                    9 => {
+                        // cycle: the MRU head points back at the tail
+                        let head = header.mru_head;
+                        entries[head as usize].next = tail;
+                    }
+                    _ => entries[tail as usize].prev = tail,
+                }
+            }
+            d = lru_file::serialize(&header, &entries);
+        }
+    }
+    (d != valid).then_some(d)
+}
+const DAMAGE_KINDS: u8 = 11;
+
+fn decoy_names(kind: u8) -> Vec<std::ffi::OsString> {
+    use std::os::unix::ffi::OsStringExt;
+    let mut v: Vec<std::ffi::OsString> = Vec::new();
+    if kind & 1 != 0 {
+        // 19 and 21 characters, 20 characters without .lru, 20 characters with non-hex digits, unrelated names
+        for n in ["000000000000001.lru", "0000000000000001.lrux", "00000000000000ff.idx", "00000000000000zz.lru", "data.001", "shmem"] {
+            v.push(n.into());
+        }
+    }
+    if kind & 2 != 0 {
+        v.push(std::ffi::OsString::from_vec(vec![0xff, 0xfe, b'.', b'l', b'r', b'u']));
+    }
+    v
 }
 
 struct History<'a> {
@@ -667,12 +794,109 @@ struct History<'a> {
     zero_foreach_seen: bool,
     zero_reload_seen: Option<Value>,
     ckpts: u64,
+    /// a file with a non-UTF-8 name was dropped into the directory
+    decoy_non_utf8: bool,
 }
 
 impl<'a> History<'a> {
     fn new(rt: &'a tokio::runtime::Runtime, dir: PathBuf, cap: usize, pool: &'a [Key]) -> Self {
         let lru = LruManager::new(cap as u32, dir.clone());
-        Self { rt, dir, cap, pool, lru, model: Model::new(cap), snaps: HashMap::new(), public_eviction_pending: false, nontrivial: false, zero_foreach_seen: false, zero_reload_seen: None, ckpts: 0 }
+        Self { rt, dir, cap, pool, lru, model: Model::new(cap), snaps: HashMap::new(), public_eviction_pending: false, nontrivial: false, zero_foreach_seen: false, zero_reload_seen: None, ckpts: 0, decoy_non_utf8: false }
+    }
+
+    /// What a textbook LRU of this capacity holds after being given the
+    /// checkpointed recency list: the most recent `cap` keys, in order.
+    fn retained(&self, checkpointed: &[Key]) -> Vec<Key> {
+        checkpointed[checkpointed.len().saturating_sub(self.cap)..].to_vec()
+    }
+
+    /// A checkpoint written by a manager of ANOTHER capacity was just loaded
+    /// (file `g`, `slots` slots): the manager must not hold more than its own
+    /// capacity, and it must still be able to hold `cap` keys (judged on a
+    /// fresh manager so that the history is not disturbed).
+    fn cross_capacity_check(&mut self, opname: &str, g: u64, slots: usize, checkpointed: &[Key], cnt: &mut Cnt) -> Result<(), Stop> {
+        if slots == self.cap {
+            return Ok(());
+        }
+        let class = if slots < self.cap { "checkpoint-written-with-smaller-capacity" } else { "checkpoint-written-with-larger-capacity" };
+        cnt.add(if slots < self.cap { "boundary.reload_checkpoint_written_with_smaller_capacity" } else { "boundary.reload_checkpoint_written_with_larger_capacity" }, 1);
+        if checkpointed.len() > self.cap {
+            cnt.add("boundary.reload_checkpoint_holding_more_keys_than_capacity", 1);
+        }
+        if self.lru.len() > self.cap {
+            return Err(Stop::Fatal(viol(opname, &format!("more-entries-than-capacity|{class}"), "after loading a checkpoint written with a larger capacity the manager holds more entries than its own capacity", json!({"generation": g, "file_slots": slots, "capacity": self.cap, "len": self.lru.len(), "checkpointed": hexkeys(checkpointed)}))));
+        }
+        if checkpointed.contains(&ZERO) {
+            // the listed zero-key reload finding leaves the table inconsistent: probe would only repeat it
+            cnt.add("capacity_probe.skipped_zero_key_in_checkpoint", 1);
+            return Ok(());
+        }
+        // capacity probe: `cap` touches of brand-new keys on a fresh manager that loaded the same file
+        let fresh: Vec<Key> = (0..self.cap).map(|i| { let b = (i as u32).to_be_bytes(); [0xC1, 0x7E, b[0], b[1], b[2], b[3], 0x5A, 0xA5, 0x01] }).collect();
+        if fresh.iter().any(|k| self.pool.contains(k)) {
+            return Ok(());
+        }
+        let mut probe = LruManager::new(self.cap as u32, self.dir.clone());
+        if let Err(e) = self.rt.block_on(probe.load_from_disk(g)) {
+            return Err(Stop::Fatal(viol(opname, &format!("fresh-manager-cannot-load-the-checkpoint|{class}"), "a fresh manager of another capacity could not load a checkpoint the live manager just loaded", json!({"generation": g, "error": e.to_string()}))));
+        }
+        cnt.add("capacity_probe.runs", 1);
+        for k in &fresh {
+            if !probe.touch(k) {
+                return Err(Stop::Fatal(viol(opname, &format!("capacity-lost|touch-returns-false|{class}"), "after loading a checkpoint written with another capacity touch() refuses a new key", json!({"generation": g, "file_slots": slots, "capacity": self.cap, "len": probe.len()}))));
+            }
+        }
+        let got = probe.verif_list_keys();
+        if probe.len() < self.cap {
+            return Err(Stop::Fatal(viol(opname, &format!("capacity-lost|{class}"), "after loading a checkpoint written with another capacity the manager no longer holds `capacity` keys: touching `capacity` new keys leaves fewer", json!({"generation": g, "file_slots": slots, "capacity": self.cap, "len_after_touching_capacity_new_keys": probe.len()}))));
+        }
+        if probe.len() > self.cap {
+            return Err(Stop::Fatal(viol(opname, &format!("more-entries-than-capacity|{class}"), "after loading a checkpoint written with another capacity the manager grows beyond its capacity", json!({"generation": g, "file_slots": slots, "capacity": self.cap, "len_after_touching_capacity_new_keys": probe.len()}))));
+        }
+        if got != fresh {
+            return Err(Stop::Fatal(viol(opname, &format!("key-set-differs-from-reference-lru|{class}"), "after loading a checkpoint written with another capacity, touching `capacity` new keys does not leave exactly those keys", json!({"generation": g, "file_slots": slots, "capacity": self.cap, "list": hexkeys(&got)}))));
+        }
+        if let Err(msg) = probe.verif_check_invariants() {
+            return Err(Stop::Fatal(viol(opname, &format!("invariant:{}|{class}", invariant_class(&msg)), "structural invariant broken after loading a checkpoint written with another capacity", json!({"invariant": msg}))));
+        }
+        Ok(())
+    }
+
+    /// load_from_disk(g) of a file the harness knows the checkpointed state of.
+    fn do_load(&mut self, g: u64, newest: bool, cnt: &mut Cnt) -> Result<(), Stop> {
+        let checkpointed = self.snaps[&g].clone();
+        let slots = file_slots(&self.dir, g).unwrap_or(self.cap);
+        let r = self.rt.block_on(self.lru.load_from_disk(g));
+        if let Err(e) = r {
+            return Err(Stop::Fatal(viol("load_from_disk", "error-loading-own-checkpoint", "load_from_disk refused a file written by checkpoint_to_disk", json!({"generation": g, "error": e.to_string(), "checkpointed": hexkeys(&checkpointed)}))));
+        }
+        self.nontrivial = true;
+        self.public_eviction_pending = false;
+        if !newest {
+            cnt.add("boundary.load_older_generation", 1);
+        }
+        if checkpointed.contains(&ZERO) {
+            cnt.add("boundary.reload_state_with_zero_key", 1);
+        }
+        let want = self.retained(&checkpointed);
+        self.cross_capacity_check("load_from_disk", g, slots, &checkpointed, cnt)?;
+        self.model.q = want.iter().copied().collect();
+        self.reload_zero_check("load_from_disk", &want)
+    }
+
+    /// Write a damaged copy of an existing checkpoint under generation `gx`.
+    fn plant_damaged(&self, kind: u8, gx: u64) -> Option<PathBuf> {
+        let src = list_lru_gens(&self.dir).into_iter().rev().find(|g| self.snaps.contains_key(g))?;
+        let valid = std::fs::read(lru_file::lru_file_path(&self.dir, src)).ok()?;
+        let bad = damage(&valid, kind % DAMAGE_KINDS)?;
+        let path = lru_file::lru_file_path(&self.dir, gx);
+        std::fs::write(&path, bad).ok()?;
+        Some(path)
+    }
+
+    fn unused_generation(&self) -> u64 {
+        let top = list_lru_gens(&self.dir).into_iter().filter(|g| *g != u64::MAX).max().unwrap_or(0).max(self.lru.generation() % (u64::MAX - 16));
+        top + 3
     }
 
     fn reload_zero_check(&mut self, opname: &str, loaded: &[Key]) -> Result<(), Stop> {
@@ -775,21 +999,127 @@ impl<'a> History<'a> {
                     return Ok(());
                 }
                 let g = gens[*sel as usize % gens.len()];
-                let loaded = self.snaps[&g].clone();
+                self.do_load(g, Some(&g) == gens.last(), cnt)?;
+            }
+            Op::LoadMaxGen(sel) => {
+                let gens: Vec<u64> = list_lru_gens(&self.dir).into_iter().filter(|g| self.snaps.contains_key(g) && *g != u64::MAX).collect();
+                if gens.is_empty() {
+                    cnt.add("load_from_disk.skipped_no_checkpoint_file", 1);
+                    return Ok(());
+                }
+                let g0 = gens[*sel as usize % gens.len()];
+                // a long-lived installation: the same checkpoint under the last generation number
+                if let Err(e) = std::fs::copy(lru_file::lru_file_path(&self.dir, g0), lru_file::lru_file_path(&self.dir, u64::MAX)) {
+                    return Err(Stop::Harness(format!("copying a checkpoint file failed: {e}")));
+                }
+                let snap = self.snaps[&g0].clone();
+                self.snaps.insert(u64::MAX, snap);
+                cnt.add("boundary.load_generation_u64_max", 1);
+                self.do_load(u64::MAX, true, cnt)?;
+            }
+            Op::LoadMissing => {
+                let g = self.unused_generation();
                 let r = self.rt.block_on(self.lru.load_from_disk(g));
-                if let Err(e) = r {
-                    return Err(Stop::Fatal(viol("load_from_disk", "error-loading-own-checkpoint", "load_from_disk refused a file written by checkpoint_to_disk", json!({"generation": g, "error": e.to_string(), "checkpointed": hexkeys(&loaded)}))));
+                match r {
+                    // a load that reports failure has loaded nothing: the model stays as it is
+                    Err(_) => cnt.add("failed_load.missing_file_err_state_judged_unchanged", 1),
+                    // not excluded by the statement; the only textbook readings are "nothing happened" or "empty"
+                    Ok(()) => {
+                        cnt.add("failed_load.missing_file_ok", 1);
+                        if self.lru.is_empty() {
+                            self.model.q.clear();
+                        }
+                    }
                 }
-                self.nontrivial = true;
-                self.public_eviction_pending = false;
-                if Some(&g) != gens.last() {
-                    cnt.add("boundary.load_older_generation", 1);
+            }
+            Op::LoadCorrupt(kind) => {
+                let gx = self.unused_generation();
+                let Some(path) = self.plant_damaged(*kind, gx) else {
+                    cnt.add("failed_load.skipped_no_checkpoint_file", 1);
+                    return Ok(());
+                };
+                let r = self.rt.block_on(self.lru.load_from_disk(gx));
+                let _ = std::fs::remove_file(&path);
+                match r {
+                    Err(_) => {
+                        cnt.add("failed_load.damaged_file_err_state_judged_unchanged", 1);
+                        cnt.add(if *kind % DAMAGE_KINDS >= 7 { "failed_load.damage_class.broken_links_valid_md5" } else { "failed_load.damage_class.stale_md5_or_size_or_version" }, 1);
+                    }
+                    Ok(()) => {
+                        // whether damage must be detected is C07/C02; what the manager then holds is not specified here
+                        cnt.add("failed_load.damaged_file_accepted_not_judged", 1);
+                        return Err(Stop::Skip("damaged checkpoint accepted by load_from_disk"));
+                    }
                 }
-                if loaded.contains(&ZERO) {
-                    cnt.add("boundary.reload_state_with_zero_key", 1);
+            }
+            Op::CycleCorrupt(kind) => {
+                if list_lru_gens(&self.dir).contains(&u64::MAX) {
+                    cnt.add("failed_load.skipped_max_generation_present", 1);
+                    return Ok(());
                 }
-                self.model.q = loaded.iter().copied().collect();
-                self.reload_zero_check("load_from_disk", &loaded)?;
+                let gx = self.unused_generation();
+                let Some(path) = self.plant_damaged(*kind, gx) else {
+                    cnt.add("failed_load.skipped_no_checkpoint_file", 1);
+                    return Ok(());
+                };
+                let r = self.rt.block_on(self.lru.run_cycle(0, 100));
+                let _ = std::fs::remove_file(&path);
+                match r {
+                    Err(_) => cnt.add("failed_load.run_cycle_damaged_latest_err_state_judged_unchanged", 1),
+                    Ok(_) => {
+                        // e.g. falling back to an older checkpoint would be legitimate: not modelled
+                        cnt.add("failed_load.run_cycle_damaged_latest_ok_not_judged", 1);
+                        return Err(Stop::Skip("run_cycle succeeded although the newest checkpoint is damaged"));
+                    }
+                }
+            }
+            Op::DirAway(k) => {
+                let away = self.dir.with_extension("away");
+                if let Err(e) = std::fs::rename(&self.dir, &away) {
+                    return Err(Stop::Harness(format!("moving the data directory away failed: {e}")));
+                }
+                let g_before = self.lru.generation();
+                let outcome: Result<(), String> = match k % 4 {
+                    0 => self.rt.block_on(self.lru.checkpoint_to_disk()).map_err(|e| e.to_string()),
+                    1 => self.rt.block_on(self.lru.run_cycle(0, 100)).map(|_| ()).map_err(|e| e.to_string()),
+                    2 => self.rt.block_on(self.lru.shutdown()).map_err(|e| e.to_string()),
+                    _ => self.rt.block_on(self.lru.load_from_disk(g_before)).map_err(|e| e.to_string()),
+                };
+                let recreated = self.dir.exists();
+                if recreated {
+                    let _ = std::fs::remove_dir_all(&self.dir);
+                }
+                if let Err(e) = std::fs::rename(&away, &self.dir) {
+                    return Err(Stop::Harness(format!("moving the data directory back failed: {e}")));
+                }
+                if recreated {
+                    cnt.add("io_failure.manager_recreated_directory_not_judged", 1);
+                    return Err(Stop::Skip("the manager re-created its data directory"));
+                }
+                // nothing can have been written or loaded: whatever the call returned, the
+                // in-memory LRU must still be the textbook LRU of the history so far
+                match (&outcome, k % 4) {
+                    (Ok(()), 0 | 2) => {
+                        let g = self.lru.generation();
+                        return Err(Stop::Fatal(viol(op.name(), "ok-but-no-file-for-current-generation|data-directory-missing", "the call returned Ok although the data directory does not exist", json!({"generation": g}))));
+                    }
+                    (Ok(()), 3) => return Err(Stop::Fatal(viol("load_from_disk", "ok-for-missing-file|data-directory-missing", "load_from_disk returned Ok although the data directory does not exist", json!({"generation": g_before})))),
+                    (Ok(()), _) => cnt.add("io_failure.run_cycle_without_directory_ok", 1),
+                    (Err(_), 0) => cnt.add("io_failure.checkpoint_err_state_judged_unchanged", 1),
+                    (Err(_), 1) => cnt.add("io_failure.run_cycle_err_state_judged_unchanged", 1),
+                    (Err(_), 2) => cnt.add("io_failure.shutdown_err_state_judged_unchanged", 1),
+                    (Err(_), _) => cnt.add("io_failure.load_err_state_judged_unchanged", 1),
+                }
+            }
+            Op::Decoys(kind) => {
+                for name in decoy_names(*kind) {
+                    if let Err(e) = std::fs::write(self.dir.join(&name), b"not a checkpoint") {
+                        return Err(Stop::Harness(format!("writing a decoy file failed: {e}")));
+                    }
+                }
+                if kind & 2 != 0 {
+                    self.decoy_non_utf8 = true;
+                }
             }
             Op::RunCycle { limit, avg } => {
                 let latest = list_lru_gens(&self.dir).last().copied();
@@ -800,6 +1130,7 @@ impl<'a> History<'a> {
                     };
                     loaded = Some(s.clone());
                 }
+                let slots_before = latest.and_then(|g| file_slots(&self.dir, g)).unwrap_or(self.cap);
                 let r = self.rt.block_on(self.lru.run_cycle(*limit, *avg));
                 let stats = match r {
                     Ok(s) => s,
@@ -808,34 +1139,52 @@ impl<'a> History<'a> {
                     }
                 };
                 let mut want_loaded = 0usize;
-                if let Some(l) = &loaded {
+                if let (Some(l), Some(g)) = (&loaded, latest) {
                     self.nontrivial = true;
                     self.public_eviction_pending = false;
                     cnt.add("boundary.run_cycle_reloaded_checkpoint", 1);
+                    if self.decoy_non_utf8 {
+                        cnt.add("boundary.run_cycle_reload_with_non_utf8_file_name_in_directory", 1);
+                    }
                     if l.contains(&ZERO) {
                         cnt.add("boundary.reload_state_with_zero_key", 1);
                     }
-                    self.model.q = l.iter().copied().collect();
-                    self.reload_zero_check("run_cycle", l)?;
-                    want_loaded = l.len();
+                    let want = self.retained(l);
+                    if slots_before != self.cap {
+                        // (the eviction step of run_cycle has already run: only the capacity probe and
+                        // "more than capacity" apply, both independent of the eviction)
+                        self.cross_capacity_check("run_cycle", g, slots_before, l, cnt)?;
+                    }
+                    self.model.q = want.iter().copied().collect();
+                    self.reload_zero_check("run_cycle", &want)?;
+                    want_loaded = want.len();
                 } else {
                     cnt.add("boundary.run_cycle_without_checkpoint_file", 1);
                 }
-                // "evict to limit": documented as active only when size_limit > 0
+                // "evict to limit": documented as active only when size_limit > 0 (exact arithmetic)
                 let mut want_evicted = 0usize;
                 if *limit > 0 && *avg > 0 {
-                    while self.model.q.len() as u64 * *avg > *limit {
+                    while self.model.q.len() as u128 * u128::from(*avg) > u128::from(*limit) {
                         self.model.q.pop_front();
                         want_evicted += 1;
                     }
+                }
+                if *avg == 0 {
+                    cnt.add("boundary.run_cycle_avg_zero", 1);
+                }
+                if *avg >= 1 << 62 {
+                    cnt.add("boundary.run_cycle_huge_avg", 1);
                 }
                 if want_evicted > 0 {
                     self.nontrivial = true;
                     cnt.add("boundary.run_cycle_evicted_to_limit", 1);
                 }
                 let want_active = self.model.q.len();
-                if stats.loaded_entries != want_loaded || stats.entries_evicted != want_evicted || stats.bytes_freed != want_evicted as u64 * *avg {
-                    return Err(Stop::Fatal(viol("run_cycle", "stats-differ-from-reference-lru", "run_cycle statistics (loaded/evicted/freed) differ from the model", json!({"limit": limit, "avg": avg, "got": {"loaded": stats.loaded_entries, "evicted": stats.entries_evicted, "freed": stats.bytes_freed}, "want": {"loaded": want_loaded, "evicted": want_evicted, "freed": want_evicted as u64 * *avg}}))));
+                let want_freed = want_evicted as u128 * u128::from(*avg);
+                let freed_fits = want_freed <= u128::from(u64::MAX);
+                if stats.loaded_entries != want_loaded || stats.entries_evicted != want_evicted || (freed_fits && u128::from(stats.bytes_freed) != want_freed) {
+                    let class = if self.decoy_non_utf8 && want_loaded > 0 && stats.loaded_entries == 0 { "stats-differ-from-reference-lru|checkpoint-not-loaded|non-utf8-file-name-in-directory" } else { "stats-differ-from-reference-lru" };
+                    return Err(Stop::Fatal(viol("run_cycle", class, "run_cycle statistics (loaded/evicted/freed) differ from the model", json!({"limit": limit, "avg": avg, "got": {"loaded": stats.loaded_entries, "evicted": stats.entries_evicted, "freed": stats.bytes_freed}, "want": {"loaded": want_loaded, "evicted": want_evicted, "freed": want_freed.to_string()}}))));
                 }
                 if stats.active_entries != want_active {
                     if self.model.has_zero() && stats.active_entries + 1 == want_active {
@@ -850,6 +1199,17 @@ impl<'a> History<'a> {
                 self.lru = LruManager::new(self.cap as u32, self.dir.clone());
                 self.model.q.clear();
                 self.public_eviction_pending = false;
+            }
+            Op::ReopenCap(c) => {
+                // the installation is re-opened with another configured capacity; the checkpoints stay
+                self.cap = *c;
+                self.lru = LruManager::new(self.cap as u32, self.dir.clone());
+                self.model = Model::new(self.cap);
+                self.public_eviction_pending = false;
+                cnt.add("boundary.reopen_with_other_capacity", 1);
+                if *c == 0 {
+                    cnt.add("boundary.capacity_zero", 1);
+                }
             }
         }
         match check_state(&self.lru, &self.model, self.pool, op.name()) {
@@ -900,13 +1260,65 @@ fn gen_history(rng: &mut Rng, cap: usize, pool: &[Key], len: usize) -> Vec<Op> {
     // a hot subset makes re-touches of present keys frequent
     let hot = (cap + 1).min(pool.len());
     let avgs = [1u64, 100, 4096];
+    // files that are not checkpoints lie in the directory of every third history
+    match rng.below(6) {
+        0 => ops.push(Op::Decoys(1)),
+        1 => ops.push(Op::Decoys(3)),
+        _ => {}
+    }
+    let huge = [0u64, 1 << 62, 1 << 63, u64::MAX];
     while ops.len() < len {
-        let r = rng.below(100);
         let key = |rng: &mut Rng| if rng.chance(2, 3) { rng.usize_below(hot) } else { rng.usize_below(pool.len()) };
+        // rare operations: capacity change, failing loads / I/O, last generation number
+        let rare = rng.below(1000);
+        if rare < 42 {
+            match rare {
+                0..=9 => {
+                    let c = match rng.below(10) {
+                        0 => 0,
+                        1 => 1,
+                        2 | 3 => (cap / 2).max(1),
+                        4 | 5 => cap + 1,
+                        6 => (cap * 2).min(96),
+                        _ => rng.urange(1, pool.len().max(2)),
+                    };
+                    ops.push(Op::ReopenCap(c));
+                    match rng.below(4) {
+                        0 => ops.push(Op::Load(rng.next_u32() % 8)),
+                        1 | 2 => ops.push(Op::RunCycle { limit: 0, avg: 100 }),
+                        _ => {}
+                    }
+                }
+                10..=15 => ops.push(Op::LoadMissing),
+                16..=24 => ops.push(Op::LoadCorrupt(rng.below(u64::from(DAMAGE_KINDS)) as u8)),
+                25..=30 => ops.push(Op::CycleCorrupt(rng.below(u64::from(DAMAGE_KINDS)) as u8)),
+                31..=34 => {
+                    ops.push(Op::LoadMaxGen(rng.next_u32() % 8));
+                    ops.push(Op::Touch(key(rng)));
+                    ops.push(if rng.bool() { Op::Bump } else { Op::Shutdown });
+                    ops.push(Op::Checkpoint);
+                }
+                _ => ops.push(Op::DirAway(rng.below(4) as u8)),
+            }
+            continue;
+        }
+        let r = rng.below(100);
         let op = match r {
             0..=51 => Op::Touch(key(rng)),
             52..=59 => Op::Remove(key(rng)),
             60..=64 => Op::EvictTail,
+            65..=70 if rng.chance(1, 12) => {
+                // degenerate entry sizes: 0 bytes, and sizes whose total exceeds 64 bits
+                let avg = *rng.pick(&huge);
+                let n = rng.urange(0, cap + 1) as u64;
+                let target = match rng.below(4) {
+                    0 => 1,
+                    1 => u64::MAX,
+                    2 => avg.saturating_mul(n),
+                    _ => (1u64 << 63) + u64::from(rng.next_u32()),
+                };
+                Op::EvictToTarget { target, avg }
+            }
             65..=70 => {
                 let avg = *rng.pick(&avgs);
                 let n = rng.urange(0, cap + 1) as u64;
@@ -917,6 +1329,17 @@ fn gen_history(rng: &mut Rng, cap: usize, pool: &[Key], len: usize) -> Vec<Op> {
                     _ => u64::from(rng.next_u32()) % (avg * (cap as u64 + 2) + 1),
                 };
                 Op::EvictToTarget { target, avg }
+            }
+            88..=92 if rng.chance(1, 12) => {
+                let avg = *rng.pick(&huge);
+                let k = rng.urange(0, cap + 2) as u64;
+                let limit = match rng.below(4) {
+                    0 => 1,
+                    1 => u64::MAX,
+                    2 => avg.saturating_mul(k),
+                    _ => 1u64 << 63,
+                };
+                Op::RunCycle { limit, avg }
             }
             71..=74 => Op::Bump,
             75 => Op::Reset,
@@ -984,6 +1407,13 @@ fn run_history(ctx: &Ctx, rt: &tokio::runtime::Runtime, part: &str, cap: usize, 
                     Op::RunCycle { .. } => "op.run_cycle",
                     Op::Shutdown => "op.shutdown",
                     Op::Reopen => "op.reopen",
+                    Op::ReopenCap(_) => "op.reopen_with_other_capacity",
+                    Op::LoadMissing => "op.load_from_disk_missing_file",
+                    Op::LoadCorrupt(_) => "op.load_from_disk_damaged_file",
+                    Op::CycleCorrupt(_) => "op.run_cycle_damaged_latest_file",
+                    Op::LoadMaxGen(_) => "op.load_from_disk_generation_u64_max",
+                    Op::Decoys(_) => "op.decoy_files",
+                    Op::DirAway(_) => "op.call_with_data_directory_missing",
                 },
                 1,
             );
@@ -1020,13 +1450,19 @@ fn run_history(ctx: &Ctx, rt: &tokio::runtime::Runtime, part: &str, cap: usize, 
                     ctx.inconclusive(&msg);
                     break;
                 }
+                Err(Stop::Skip(_why)) => {
+                    executed = i + 1;
+                    cnt.add("histories_ended_early_not_judged", 1);
+                    break;
+                }
             }
         }
     }));
     if let Err(p) = r {
         let msg = vh::monitor::watchdog::panic_message(&p);
         let op = ops.get(current).map_or("?", Op::name);
-        let v = viol(op, "panic-in-lru-manager", "the LRU manager panicked", json!({"panic": msg}));
+        let rel = if msg.contains("overflow") { "panic-in-lru-manager|arithmetic-overflow" } else { "panic-in-lru-manager" };
+        let v = viol(op, rel, "the LRU manager panicked", json!({"panic": msg}));
         report(ctx, &v, part, cap, pool, &ops[..=current.min(ops.len().saturating_sub(1))]);
     }
     HistOutcome { executed, nontrivial: h.nontrivial }
@@ -1111,8 +1547,464 @@ fn run_random(ctx: &Ctx, threads: usize) {
     });
 }
 
+
+// ---------------------------------------------------------------------------
+// part 3: the LRU driven through DynamicContainer (read / write touch the key)
+// ---------------------------------------------------------------------------
+
+#[derive(Clone, Debug)]
+enum COp {
+    /// container.write of payload #id
+    Write(u32),
+    /// container.read of the i-th key learned so far
+    Read(u32),
+    /// container.read of a key that was never written
+    ReadMissing(u32),
+    /// container.remove of the i-th key
+    CRemove(u32),
+    /// direct operations on the shared manager between container calls
+    LRemove(u32),
+    LEvictTail,
+    LEvictTarget(u64),
+    /// checkpoint the shared manager and load the same generation again
+    Persist,
+    /// drop the container and open a new one on the same directory with the same manager
+    ReopenContainer,
+    /// the same, but the new container is read-only (reads still count as accesses, writes are refused)
+    ReopenReadOnly,
+}
+
+impl COp {
+    fn encode(&self) -> String {
+        match self {
+            COp::Write(i) => format!("w{i}"),
+            COp::Read(i) => format!("r{i}"),
+            COp::ReadMissing(i) => format!("m{i}"),
+            COp::CRemove(i) => format!("d{i}"),
+            COp::LRemove(i) => format!("R{i}"),
+            COp::LEvictTail => "E".into(),
+            COp::LEvictTarget(n) => format!("X{n}"),
+            COp::Persist => "P".into(),
+            COp::ReopenContainer => "o".into(),
+            COp::ReopenReadOnly => "q".into(),
+        }
+    }
+    fn decode(s: &str) -> Option<COp> {
+        let (head, rest) = s.split_at(1.min(s.len()));
+        Some(match head {
+            "w" => COp::Write(rest.parse().ok()?),
+            "r" => COp::Read(rest.parse().ok()?),
+            "m" => COp::ReadMissing(rest.parse().ok()?),
+            "d" => COp::CRemove(rest.parse().ok()?),
+            "R" => COp::LRemove(rest.parse().ok()?),
+            "E" => COp::LEvictTail,
+            "X" => COp::LEvictTarget(rest.parse().ok()?),
+            "P" => COp::Persist,
+            "o" => COp::ReopenContainer,
+            "q" => COp::ReopenReadOnly,
+            _ => return None,
+        })
+    }
+}
+
+fn c_payload(pseed: u64, id: u32) -> Vec<u8> {
+    let mut r = Rng::derive(pseed, u64::from(id));
+    let n = 1 + r.usize_below(700);
+    r.bytes(n)
+}
+
+fn pad16(k: &Key) -> [u8; 16] {
+    let mut o = [0u8; 16];
+    o[..9].copy_from_slice(k);
+    o
+}
+
+fn open_container(rt: &tokio::runtime::Runtime, root: &Path, lru: &Arc<RwLock<LruManager>>, read_only: bool) -> Result<DynamicContainer, String> {
+    let mut b = DynamicContainer::builder(root.join("store")).lru(lru.clone());
+    if read_only {
+        b = b.access_mode(AccessMode::ReadOnly);
+    }
+    let c = b.build().map_err(|e| format!("DynamicContainer build: {e}"))?;
+    rt.block_on(c.open()).map_err(|e| format!("DynamicContainer open: {e}"))?;
+    Ok(c)
+}
+
+fn c_read(rt: &tokio::runtime::Runtime, c: &DynamicContainer, k16: &[u8; 16]) -> Result<Vec<u8>, String> {
+    let mut buf = vec![0u8; 1024];
+    let n = rt.block_on(c.read(k16, 0, 0, &mut buf)).map_err(|e| e.to_string())?;
+    buf.truncate(n.min(1024));
+    Ok(buf)
+}
+
+struct CHist<'a> {
+    rt: &'a tokio::runtime::Runtime,
+    root: PathBuf,
+    cap: usize,
+    pseed: u64,
+    lru: Arc<RwLock<LruManager>>,
+    c: Option<DynamicContainer>,
+    model: Model,
+    /// keys learned so far (9-byte prefixes of the encoding keys the container chose), in order of discovery
+    known: Vec<Key>,
+    payload_of: HashMap<Key, u32>,
+    evictions: u64,
+}
+
+impl CHist<'_> {
+    fn state(&self, opname: &str) -> Result<(), Viol> {
+        check_state(&self.lru.read(), &self.model, &self.known, opname).map(|_| ())
+    }
+
+    /// The call failed (or the statement leaves its effect on the tracker
+    /// open): the tracker must be the textbook LRU either without the access
+    /// or with `alt` applied; the model follows what is observed.
+    fn either(&mut self, opname: &str, alt: Model, cnt: &mut Cnt, label_same: &'static str, label_alt: &'static str) -> Result<(), Stop> {
+        match self.state(opname) {
+            Ok(()) => {
+                cnt.add(label_same, 1);
+                Ok(())
+            }
+            Err(first) => {
+                let keep = std::mem::replace(&mut self.model, alt);
+                if self.state(opname).is_ok() {
+                    cnt.add(label_alt, 1);
+                    Ok(())
+                } else {
+                    self.model = keep;
+                    Err(Stop::Fatal(first))
+                }
+            }
+        }
+    }
+
+    fn step(&mut self, op: &COp, cnt: &mut Cnt) -> Result<(), Stop> {
+        let rt = self.rt;
+        match op {
+            COp::Write(id) => {
+                let data = c_payload(self.pseed, *id);
+                let ckey: [u8; 16] = md5::compute(&data).0;
+                let Some(c) = self.c.as_ref() else { return Err(Stop::Harness("no container".into())) };
+                let r = rt.block_on(c.write(&ckey, &data));
+                if let Err(e) = r {
+                    cnt.add("write_err", 1);
+                    if matches!(e, cascette_client_storage::StorageError::AccessDenied(_)) {
+                        // refused before anything was stored: no access happened
+                        cnt.add("write_refused_by_read_only_container_tracker_judged_unchanged", 1);
+                        return self.state("container.write").map_err(|mut v| {
+                            v.sig = format!("{}|refused-write", v.sig);
+                            Stop::Fatal(v)
+                        });
+                    }
+                    // other failures are not this property's business; the tracker must still be a textbook LRU
+                    return self.state("container.write").map_err(|_| Stop::Skip("container write failed and the tracker moved"));
+                }
+                cnt.add("write_ok", 1);
+                let list = self.lru.read().verif_list_keys();
+                let Some(k) = list.last().copied() else {
+                    return Err(Stop::Fatal(viol("container.write", "no-key-tracked-after-write", "a successful write through the container left the tracker empty (capacity >= 1)", json!({"capacity": self.cap}))));
+                };
+                let was_known = self.model.pos(&k).is_some();
+                let was_full = self.model.q.len() >= self.cap;
+                let (_, ev) = self.model.touch(&k);
+                if ev {
+                    self.evictions += 1;
+                    cnt.add("write_evicted_lru_tail", 1);
+                }
+                if was_known {
+                    cnt.add("write_of_tracked_object", 1);
+                } else if was_full {
+                    cnt.add("write_new_key_at_capacity", 1);
+                }
+                if !self.known.contains(&k) {
+                    self.known.push(k);
+                }
+                // exactly one access happened: everything else keeps its order, the tail went if full
+                self.state("container.write").map_err(Stop::Fatal)?;
+                // the most recent key must name an object of the container (the write returned Ok, so
+                // its object is indexed) ...
+                if let Ok(false) = rt.block_on(c.query(&pad16(&k))) {
+                    return Err(Stop::Fatal(viol("container.write", "most-recent-key-is-not-a-stored-object", "after a successful write the key at the MRU end of the tracker is not a key of the container's index: the write touched something else than the key it stored the object under", json!({"mru_key": hex::encode(k)}))));
+                }
+                // ... namely the one just written
+                match c_read(rt, c, &pad16(&k)) {
+                    Ok(bytes) if bytes == data => cnt.add("write_key_verified_by_read_back", 1),
+                    Ok(bytes) => {
+                        return Err(Stop::Fatal(viol("container.write", "most-recent-key-does-not-name-the-written-object", "after a write the key at the MRU end reads back other bytes than the ones written: the write did not touch its own key", json!({"mru_key": hex::encode(k), "written_len": data.len(), "read_len": bytes.len()}))));
+                    }
+                    Err(_) => cnt.add("write_key_unverified_read_failed", 1),
+                }
+                // (that read touched k, which already was most recent)
+                self.state("container.read").map_err(Stop::Fatal)?;
+                self.payload_of.insert(k, *id);
+            }
+            COp::Read(i) => {
+                if self.known.is_empty() {
+                    return Ok(());
+                }
+                let k = self.known[*i as usize % self.known.len()];
+                let Some(c) = self.c.as_ref() else { return Err(Stop::Harness("no container".into())) };
+                let tracked = self.model.pos(&k).is_some();
+                let was_full = self.model.q.len() >= self.cap;
+                let r = c_read(rt, c, &pad16(&k));
+                let mut touched = self.model.clone();
+                let (_, ev) = touched.touch(&k);
+                match r {
+                    Ok(bytes) => {
+                        cnt.add("read_ok", 1);
+                        if !tracked {
+                            cnt.add("read_ok_of_object_evicted_from_tracker", 1);
+                            if was_full {
+                                cnt.add("read_new_key_at_capacity", 1);
+                            }
+                        }
+                        if self.payload_of.get(&k).is_some_and(|id| c_payload(self.pseed, *id) != bytes) {
+                            cnt.add("read_bytes_differ_not_judged_here", 1);
+                        }
+                        if ev {
+                            self.evictions += 1;
+                        }
+                        self.model = touched;
+                        // a successful read is an access: the key is present and most recent afterwards
+                        self.state("container.read").map_err(Stop::Fatal)?;
+                    }
+                    Err(_) => {
+                        cnt.add("read_err", 1);
+                        self.either("container.read", touched, cnt, "read_err_tracker_unchanged", "read_err_tracker_touched")?;
+                    }
+                }
+            }
+            COp::ReadMissing(n) => {
+                let k16: [u8; 16] = Rng::derive(self.pseed, 1_000_000 + u64::from(*n)).array::<16>();
+                let k: Key = k16[..9].try_into().unwrap_or(ZERO);
+                let Some(c) = self.c.as_ref() else { return Err(Stop::Harness("no container".into())) };
+                let r = c_read(rt, c, &k16);
+                let mut touched = self.model.clone();
+                touched.touch(&k);
+                if r.is_ok() {
+                    cnt.add("read_of_unwritten_key_ok_not_judged_here", 1);
+                }
+                let before = self.model.q.len();
+                self.either("container.read", touched, cnt, "read_missing_tracker_unchanged", "read_missing_tracker_touched")?;
+                if self.model.q.len() != before || self.model.pos(&k).is_some() {
+                    if !self.known.contains(&k) {
+                        self.known.push(k);
+                    }
+                }
+            }
+            COp::CRemove(i) => {
+                if self.known.is_empty() {
+                    return Ok(());
+                }
+                let k = self.known[*i as usize % self.known.len()];
+                let Some(c) = self.c.as_ref() else { return Err(Stop::Harness("no container".into())) };
+                let _ = rt.block_on(c.remove(&pad16(&k)));
+                cnt.add("remove", 1);
+                // whether removing an object also forgets its recency record is left open by the statement
+                let mut removed = self.model.clone();
+                removed.remove(&k);
+                self.either("container.remove", removed, cnt, "remove_tracker_unchanged", "remove_tracker_forgot_key")?;
+            }
+            COp::LRemove(_) | COp::LEvictTail | COp::LEvictTarget(_) => {
+                if self.known.is_empty() {
+                    return Ok(());
+                }
+                let mop = match op {
+                    COp::LRemove(i) => Op::Remove(*i as usize % self.known.len()),
+                    COp::LEvictTail => Op::EvictTail,
+                    COp::LEvictTarget(n) => Op::EvictToTarget { target: n * 100, avg: 100 },
+                    _ => unreachable!(),
+                };
+                let info = apply_mem(&mut self.lru.write(), &mut self.model, &mop, &self.known, cnt).map_err(Stop::Fatal)?;
+                if info.evicted {
+                    self.evictions += 1;
+                }
+                self.state(mop.name()).map_err(Stop::Fatal)?;
+            }
+            COp::Persist => {
+                let mut g = self.lru.write();
+                let generation = g.generation();
+                if let Err(e) = rt.block_on(g.checkpoint_to_disk()) {
+                    return Err(Stop::Harness(format!("checkpoint_to_disk failed on a temp dir: {e}")));
+                }
+                if let Err(e) = rt.block_on(g.load_from_disk(generation)) {
+                    return Err(Stop::Fatal(viol("load_from_disk", "error-loading-own-checkpoint", "load_from_disk refused a file written by checkpoint_to_disk", json!({"generation": generation, "error": e.to_string()}))));
+                }
+                drop(g);
+                cnt.add("tracker_checkpoint_and_reload", 1);
+                self.state("load_from_disk").map_err(Stop::Fatal)?;
+            }
+            COp::ReopenContainer | COp::ReopenReadOnly => {
+                self.c = None;
+                let ro = matches!(op, COp::ReopenReadOnly);
+                if ro {
+                    cnt.add("reopened_read_only", 1);
+                }
+                match open_container(rt, &self.root, &self.lru, ro) {
+                    Ok(c) => self.c = Some(c),
+                    Err(e) => return Err(Stop::Harness(e)),
+                }
+                cnt.add("reopened", 1);
+                // opening a container is not an access
+                self.state("container.open").map_err(Stop::Fatal)?;
+            }
+        }
+        Ok(())
+    }
+}
+
+fn gen_container_history(rng: &mut Rng, cap: usize, len: usize) -> Vec<COp> {
+    let ids = (cap as u32 + 2 + rng.below(cap as u64 * 2 + 2) as u32).max(3);
+    let mut ops = Vec::with_capacity(len);
+    let mut missing = 0u32;
+    while ops.len() < len {
+        ops.push(match rng.below(100) {
+            0..=34 => COp::Write(rng.below(u64::from(ids)) as u32),
+            35..=69 => COp::Read(rng.next_u32() % 64),
+            70..=74 => {
+                missing += 1;
+                COp::ReadMissing(missing)
+            }
+            75..=80 => COp::CRemove(rng.next_u32() % 64),
+            81..=85 => COp::LRemove(rng.next_u32() % 64),
+            86..=89 => COp::LEvictTail,
+            90..=92 => COp::LEvictTarget(rng.below(cap as u64 + 2)),
+            93..=95 => COp::Persist,
+            96 | 97 => COp::ReopenReadOnly,
+            _ => COp::ReopenContainer,
+        });
+    }
+    ops
+}
+
+struct CHistOutcome {
+    executed: usize,
+    evictions: u64,
+}
+
+fn run_container_history(ctx: &Ctx, rt: &tokio::runtime::Runtime, part: &str, cap: usize, pseed: u64, ops: &[COp], cnt: &mut Cnt) -> CHistOutcome {
+    let tmp = match tempfile::tempdir() {
+        Ok(t) => t,
+        Err(e) => {
+            ctx.inconclusive(&format!("tempdir failed: {e}"));
+            return CHistOutcome { executed: 0, evictions: 0 };
+        }
+    };
+    let root = tmp.path().to_path_buf();
+    let lru_dir = root.join("lru");
+    if let Err(e) = std::fs::create_dir_all(&lru_dir) {
+        ctx.inconclusive(&format!("create_dir_all failed: {e}"));
+        return CHistOutcome { executed: 0, evictions: 0 };
+    }
+    let lru = Arc::new(RwLock::new(LruManager::new(cap as u32, lru_dir)));
+    let c = match open_container(rt, &root, &lru, false) {
+        Ok(c) => c,
+        Err(e) => {
+            ctx.inconclusive(&e);
+            return CHistOutcome { executed: 0, evictions: 0 };
+        }
+    };
+    let mut h = CHist { rt, root, cap, pseed, lru, c: Some(c), model: Model::new(cap), known: Vec::new(), payload_of: HashMap::new(), evictions: 0 };
+    let mut executed = 0usize;
+    let mut current = 0usize;
+    let detail = |upto: usize, v: &Viol| json!({"part": part, "via": "DynamicContainer", "capacity": cap, "pseed": pseed.to_string(), "ops": ops[..=upto.min(ops.len().saturating_sub(1))].iter().map(COp::encode).collect::<Vec<_>>(), "failing_op_index": upto, "observation": v.extra});
+    let r = std::panic::catch_unwind(std::panic::AssertUnwindSafe(|| {
+        for (i, op) in ops.iter().enumerate() {
+            current = i;
+            match h.step(op, cnt) {
+                Ok(()) => executed = i + 1,
+                Err(Stop::Fatal(v)) => {
+                    executed = i + 1;
+                    ctx.violation(&v.sig, &v.summary, detail(i, &v));
+                    break;
+                }
+                Err(Stop::Harness(msg)) => {
+                    ctx.inconclusive(&msg);
+                    break;
+                }
+                Err(Stop::Skip(_)) => {
+                    executed = i + 1;
+                    cnt.add("histories_ended_early_not_judged", 1);
+                    break;
+                }
+            }
+        }
+    }));
+    if let Err(p) = r {
+        let msg = vh::monitor::watchdog::panic_message(&p);
+        let v = viol("container", "panic-in-lru-manager-or-container", "a panic while the LRU was driven through the container", json!({"panic": msg}));
+        ctx.violation(&v.sig, &v.summary, detail(current, &v));
+    }
+    CHistOutcome { executed, evictions: h.evictions }
+}
+
+fn run_container(ctx: &Ctx, threads: usize) {
+    let total: usize = ctx.pick(64, 1500);
+    let next = AtomicUsize::new(0);
+    std::thread::scope(|s| {
+        for _ in 0..threads {
+            let next = &next;
+            s.spawn(move || {
+                let rt = match tokio::runtime::Builder::new_current_thread().enable_all().build() {
+                    Ok(rt) => rt,
+                    Err(e) => {
+                        ctx.inconclusive(&format!("tokio runtime: {e}"));
+                        return;
+                    }
+                };
+                let mut cnt = Cnt::default();
+                loop {
+                    let ix = next.fetch_add(1, Ordering::Relaxed);
+                    if ix >= total {
+                        break;
+                    }
+                    let mut rng = ctx.rng(50_000 + ix as u64);
+                    let cap = match rng.below(6) {
+                        0 => 1,
+                        1 => 2,
+                        _ => rng.urange(3, 9),
+                    };
+                    let len = rng.urange(20, 90);
+                    let pseed = rng.next_u64();
+                    let ops = gen_container_history(&mut rng, cap, len);
+                    let out = run_container_history(ctx, &rt, "container", cap, pseed, &ops, &mut cnt);
+                    cnt.add("histories", 1);
+                    cnt.add("operations_executed", out.executed as u64);
+                    let mut h = mix64(fnv64(b"container"), cap as u64 ^ pseed);
+                    for op in &ops {
+                        h = mix64(h, fnv64(op.encode().as_bytes()));
+                    }
+                    if out.evictions > 0 {
+                        ctx.eval_nontrivial(h);
+                    } else {
+                        ctx.eval();
+                    }
+                    if ix == 0 {
+                        ctx.sample(json!({"part":"container","capacity":cap,"len":ops.len(),"executed":out.executed,"first_ops":ops.iter().take(40).map(COp::encode).collect::<Vec<_>>()}));
+                    }
+                }
+                cnt.flush(ctx, "container.");
+            });
+        }
+    });
+}
+
 fn replay(ctx: &Ctx, d: &Value) {
     let cap = d.get("capacity").and_then(Value::as_u64).unwrap_or(1) as usize;
+    if d.get("via").and_then(Value::as_str) == Some("DynamicContainer") {
+        let pseed: u64 = d.get("pseed").and_then(Value::as_str).and_then(|s| s.parse().ok()).unwrap_or(0);
+        let ops: Vec<COp> = d.get("ops").and_then(Value::as_array).map(|a| a.iter().filter_map(|o| COp::decode(o.as_str()?)).collect()).unwrap_or_default();
+        let Ok(rt) = tokio::runtime::Builder::new_current_thread().enable_all().build() else {
+            ctx.inconclusive("tokio runtime");
+            return;
+        };
+        let mut cnt = Cnt::default();
+        let out = run_container_history(ctx, &rt, "replay", cap, pseed, &ops, &mut cnt);
+        println!("replayed {} of {} container operations (capacity {cap})", out.executed, ops.len());
+        ctx.eval_nontrivial(1);
+        ctx.eval_nontrivial(2);
+        cnt.flush(ctx, "replay.");
+        return;
+    }
     let pool: Vec<Key> = d
         .get("keys")
         .and_then(Value::as_array)
@@ -1147,10 +2039,11 @@ fn replay(ctx: &Ctx, d: &Value) {
 fn main() {
     let ctx = Ctx::init("C17", "exploration");
     ctx.set_rule(
-        "part 1 (the only part the `exhaustive` flag refers to): EVERY operation sequence of length 1..=5 (quick) / 1..=6 (thorough) over capacities {1,2,3}, keys {00*9, 01*9, 00*8+01, ff*9} and the 14-operation alphabet touch(k) x4, remove(k) x4, evict_tail, evict_to_target(1|2|3 entries x 100 bytes), bump_generation, reset is executed on a fresh LruManager and judged after its last operation against a VecDeque reference LRU (list order, for_each_entry order, len, contains, return values, capacity bound, touch post-condition, structural invariant walker); part 2: seeded random histories of 50..=2000 operations, capacities 1..=64, key pools of capacity+1..3*capacity+2 keys (every 4th pool holds the all-zero key), additionally checkpoint_to_disk / load_from_disk (any existing generation) / run_cycle / shutdown / re-open on a temp dir, judged after EVERY operation. One case = one sequence / one history; non-trivial = it contains an eviction (touch at capacity, evict_tail, evict_to_target > 0, run_cycle eviction) or a reload; distinct by hash of (capacity, keys, operations). In the thorough tier only 1 in 16 of the length-6 sequences is hashed into the distinct set (memory bound); observations.exhaustive.sequences_nontrivial is the exact count.",
+        "part 1 (the only part the `exhaustive` flag refers to): EVERY operation sequence of length 1..=5 (quick) / 1..=6 (thorough) over capacities {1,2,3}, keys {00*9, 01*9, 00*8+01, ff*9} and the 14-operation alphabet touch(k) x4, remove(k) x4, evict_tail, evict_to_target(1|2|3 entries x 100 bytes), bump_generation, reset is executed on a fresh LruManager and judged after its last operation against a VecDeque reference LRU (list order, for_each_entry order, len, contains, return values, capacity bound, touch post-condition, structural invariant walker); part 2: seeded random histories of 50..=2000 operations, capacities 1..=64, key pools of capacity+1..3*capacity+2 keys (every 4th pool holds the all-zero key), additionally checkpoint_to_disk / load_from_disk (any existing generation) / run_cycle / shutdown / re-open on a temp dir, judged after EVERY operation. One case = one sequence / one history; non-trivial = it contains an eviction (touch at capacity, evict_tail, evict_to_target > 0, run_cycle eviction) or a reload; distinct by hash of (capacity, keys, operations). Coverage-driven extension of part 2: re-open with ANOTHER capacity (0..96) followed by reloads of checkpoints written with a smaller/larger table (textbook: the most recent `capacity` keys survive; a capacity probe on a fresh manager touches `capacity` new keys), load_from_disk of a missing / damaged file (11 kinds of damage, incl. re-serialized files with broken links) and run_cycle with a damaged newest file (a failed load leaves the tracker unchanged), calls while the data directory is missing, a checkpoint under generation u64::MAX (the next bump wraps), non-checkpoint and non-UTF-8 file names in the directory, entry sizes 0 and >= 2^62 (exact 128-bit reference arithmetic). Part 3: 64 (quick) / 1500 (thorough) histories of 20..90 operations in which the shared LruManager (capacity 1..8) is driven through DynamicContainer::write / read (the two production call sites of touch), interleaved with container remove / re-open and direct remove / evict_tail / evict_to_target / checkpoint+reload, judged against the same reference LRU after every call (a successful write or read is exactly one access of the key under which the object reads back). In the thorough tier only 1 in 16 of the length-6 sequences is hashed into the distinct set (memory bound); observations.exhaustive.sequences_nontrivial is the exact count.",
     );
     ctx.assume("the VecDeque reference LRU in the harness is the specification of 'textbook LRU'");
     ctx.assume("verif_list_keys / verif_check_invariants (feature verif-hooks) report the manager's internal list faithfully");
+    ctx.assume("a load that returns Err has loaded nothing (the model keeps its state); a checkpoint of k keys loaded into a manager of capacity c < k leaves the c most recent keys; the effect on the tracker of a FAILED container read, of a read of an unwritten key and of container.remove is left open by the statement (either 'no access' or 'one access' / 'key forgotten' is accepted and followed)");
     ctx.assume("which checkpoint a reload sees is observed from the directory (file name = generation) rather than modelled; run_cycle is expected to load the highest generation present");
 
     // quiet panic hook: panics are caught and reported as violations with context
@@ -1164,6 +2057,7 @@ fn main() {
     let threads = 16usize;
     run_exhaustive(&ctx, threads);
     run_random(&ctx, threads);
+    run_container(&ctx, threads);
 
     // minimum evidence: the situations the property is about must have been reached
     let need = [
@@ -1177,6 +2071,27 @@ fn main() {
         "random.op.load_from_disk",
         "random.op.checkpoint_to_disk",
         "random.op.shutdown",
+        // coverage-driven extension: every added situation must have been reached and judged
+        "random.boundary.reload_checkpoint_written_with_smaller_capacity",
+        "random.boundary.reload_checkpoint_written_with_larger_capacity",
+        "random.boundary.reload_checkpoint_holding_more_keys_than_capacity",
+        "random.capacity_probe.runs",
+        "random.boundary.capacity_zero",
+        "random.failed_load.missing_file_err_state_judged_unchanged",
+        "random.failed_load.damaged_file_err_state_judged_unchanged",
+        "random.failed_load.run_cycle_damaged_latest_err_state_judged_unchanged",
+        "random.io_failure.checkpoint_err_state_judged_unchanged",
+        "random.boundary.bump_generation_wraps_at_u64_max",
+        "random.boundary.run_cycle_reload_with_non_utf8_file_name_in_directory",
+        "random.boundary.evict_to_target_huge_avg",
+        "random.boundary.run_cycle_huge_avg",
+        "container.write_ok",
+        "container.write_key_verified_by_read_back",
+        "container.write_evicted_lru_tail",
+        "container.read_ok",
+        "container.read_new_key_at_capacity",
+        "container.tracker_checkpoint_and_reload",
+        "container.write_refused_by_read_only_container_tracker_judged_unchanged",
     ];
     for k in need {
         if ctx.get_obs(k) == 0 {
